@@ -191,6 +191,53 @@ def replayFlags [DecidableEq κ] (a : Adapter κ) (db : Db κ) (run : String) : 
     let r := waitNext a db run 0 [k] [k] false none
     r.1.isReplaying :: replayFlags r.1 r.2.1 run ks
 
+/-! ### whole histories of calls: one process life, several lives (used by the history theorems of C27
+and by the driver op `c27xhist`) -/
+
+/-- the environment's part of one `wait_for_next_task` call -/
+structure WaitIn (κ : Type) where
+  fid : Nat := 0
+  inflight : List κ := []
+  done : List κ := []
+  timedOut : Bool := false
+  choice : Option κ := none
+deriving Repr
+
+/-- the completion a call hands to the control loop, if any -/
+def WaitOut.returned : WaitOut κ → Option κ
+  | .replayed k => some k
+  | .fresh k _ => some k
+  | _ => none
+
+/-- the completion a call INSERTed, if any -/
+def WaitOut.freshKey : WaitOut κ → Option κ
+  | .fresh k _ => some k
+  | _ => none
+
+def returnedKeys (rs : List (WaitRes κ)) : List κ := rs.filterMap (·.out.returned)
+def freshKeys (rs : List (WaitRes κ)) : List κ := rs.filterMap (·.out.freshKey)
+
+section
+variable [DecidableEq κ]
+
+/-- one process life: consecutive calls of one adapter -/
+def runCalls (run : String) : Adapter κ → Db κ → List (WaitIn κ) → Adapter κ × Db κ × List (WaitRes κ)
+  | a, db, [] => (a, db, [])
+  | a, db, i :: is =>
+    let r := waitNext a db run i.fid i.inflight i.done i.timedOut i.choice
+    let r' := runCalls run r.1 r.2.1 is
+    (r'.1, r'.2.1, r.2.2 :: r'.2.2)
+
+/-- several lives of the same run: each starts with a fresh adapter on the surviving table -/
+def runLives (run : String) : Db κ → List (List (WaitIn κ)) → Db κ × List (WaitRes κ)
+  | db, [] => (db, [])
+  | db, l :: ls =>
+    let r := runCalls run {} db l
+    let r' := runLives run r.2.1 ls
+    (r'.1, r.2.2 ++ r'.2)
+
+end
+
 /-! ## Part B — abstract control loop, fresh process, recovery -/
 
 /-- A started task.  `fid` (the DBOS function id of its first operation) is its identity: step
